@@ -1085,7 +1085,7 @@ static void destroy_done(runctx *x) {
         COST_API(htp_tx_destroy(tx));
         x->r->st.tx_destroyed_by_harness++;
     }
-    htp_connp_tx_freed(p);
+    COST_API(htp_connp_tx_freed(p));      /* an API call like the others: its work is metered (C08) */
 }
 
 static void mem_sample(runctx *x) {
